@@ -324,7 +324,7 @@ def run(ctx: Ctx) -> None:
     }
     for c in cases[:: max(1, len(cases) // 5)][:6]:
         ctx.sample(D.short(c))
-    done = D.explore(ctx, cases, judge, 100 if ctx.quick else 2400,
+    done = D.explore(ctx, cases, judge, 110 if ctx.quick else 2400,
                      rule=RULE)
     # how often the oracle had something to get wrong
     stats = {'non_identity_mappings': 0, 'pi_differs_from_pf': 0,
